@@ -18,7 +18,7 @@ RULE = (
     "stream (operands become exactly [valid_addr] vs unchanged; count, order, addresses unchanged) against the stream without the option, and through the rules "
     "call: [valid_addr] / jmp: [valid_addr] in all-matches address mode. Non-trivial: >= 1 target exactly on or adjacent to a bound; distinct by canonical hash."
 )
-ASSUMPTIONS = ["conditional jumps are not mentioned by the statement: whatever JASM does with them is accepted; callq/jmpq are the direct call/jmp with their size suffix spelled out and are judged like call/jmp", "targets are hexadecimal as objdump prints them"]
+ASSUMPTIONS = ["conditional jumps are not mentioned by the statement: whatever JASM does with them is accepted; callq/jmpq are the direct call/jmp with their size suffix spelled out and are judged like call/jmp, and so are the operand-size spellings callw/jmpw and calll/jmpl objdump itself prints", "targets are hexadecimal as objdump prints them"]
 FLOORS = {"target=min": 0.15, "target=max": 0.15, "target=min-1": 0.15, "target=max+1": 0.15, "has-indirect": 0.2, "has-nonbranch-number": 0.2, "min=max": 0.05, "min=0": 0.06}
 
 
@@ -66,7 +66,7 @@ def cases(draw):
             m = draw(st.sampled_from(["call", "jmp"]))
             insts.append({"addr": addr, "m": m, "ops": [ts + ann], "kind": kind, "T": T, "where": where})
         elif kind == "q-suffixed":
-            m = draw(st.sampled_from(["callq", "jmpq", "callw", "jmpw"]))  # callw/jmpw: what objdump 2.40 prints for 66 e8 / 66 e9
+            m = draw(st.sampled_from(["callq", "jmpq", "callw", "jmpw", "calll", "jmpl"]))  # callw/jmpw: what objdump 2.40 prints for 66 e8 / 66 e9; calll/jmpl: the same in 16-bit code
             insts.append({"addr": addr, "m": m, "ops": [ts + ann], "kind": kind, "T": T, "where": where})
         elif kind == "indirect":
             m = draw(st.sampled_from(["call", "jmp"]))
